@@ -11,7 +11,7 @@ Definition run_case (spec : bool) (c : sexp) : sexp :=
   match c with
   | SList (head :: args) =>
       match first_some [run_C09 spec head args; run_lang spec head args; run_C08 spec head args;
-                        run_C16 spec head args; run_C10 spec head args; run_C15 spec head args; run_C19 spec head args; run_parse spec head args;
+                        run_C16 spec head args; run_C10 spec head args; run_C15 spec head args; run_C19 spec head args; run_parse spec head args; run_typecheck spec head args;
                         run_C11 spec head args; run_C20 spec head args;
                         run_C06 spec head args; run_C14 spec head args;
                         run_C12 spec head args; run_C18 spec head args;
